@@ -194,7 +194,7 @@ GROUPS = [guard(iv_fit)]
 BOUNDED = [bounded("fa_repro.py", "bag_vs_list", "C12.fa.bag",
                    "ISV/JFA trained from a Dask bag with 1, 2, 3 and one-per-element partitions, partitions mixing classes and unsorted labels, equal list "
                    "training exactly (rationals) in U, V, D -- regrouping by class, per-class reduction and copy-back (thorough tier: also worker processes)")]
-SHARED = [("C09", "handover", ["C09.handover"]), ("C09", "reduce_iadd", ["C09.reduce"]),      # copy-back of U, V, D on the Dask path with isolated (serialised) tasks
+SHARED = [("C09", "handover", ["C09.handover"]), ("C09", "reduce_iadd", ["C09.reduce"]), ("C09", "esteps", ["C09.estep.V", "C09.estep.U", "C09.estep.D", "C09.isv.estep"]), ("C09", "finalizers", ["C09.finalize.V", "C09.finalize.U"]),      # copy-back of U, V, D on the Dask path with isolated (serialised) tasks
           ("C10", "stats_ops", ["C10.stats.add"]), ("C10", "estep", ["C10.estep.nij", "C10.estep.snormij", "C10.estep.nij_sigma_wij2", "C10.estep.fnorm_sigma_wij"])]
 REPLAY = [("C09", "fa_repro.py", "dask_classes", {}), ("C12.iv", "iv_repro.py", "bag", {}), ("C12.fa", "fa_repro.py", "bag_vs_list", {}), ("C10", "iv_repro.py", "all", {})]
 TRUSTED = ["Dask contract (DESIGN §3) incl. Bag.to_delayed() yielding the partitions in order", "range-split / partition-sum axioms for Σ"]
